@@ -9,64 +9,64 @@ hooks = subprocess.run(["git", "-C", "/repo", "log", "--format=%h %s"], capture_
 hook_commits = [l.split()[0] for l in hooks if l.split(" ", 1)[1].startswith("verif hook")][::-1]
 
 P = {
- "C01": ("stateless exploration of the real parser over symbol trees, positional sweeps, scanner grids and size families, with guard pages, hostile in-class surroundings, armed debug assertions, catch_unwind, crash journal and watchdog; valgrind memcheck as a byte-granular bounds monitor on an enumerated corpus of exact-size heap buffers",
+ "C01": ("stateless exploration of the real parser over symbol trees, positional sweeps, scanner grids and size families, with guard pages, hostile in-class surroundings, armed debug assertions, catch_unwind, crash journal and watchdog, in three profiles (debug assertions + overflow checks; overflow checks only; release); long fields, page-straddling placements, token and header-line sweeps; valgrind memcheck as a byte-granular bounds monitor on an enumerated corpus of exact-size heap buffers; stack-depth leg (size families on a 256 KiB thread stack in the unoptimised build); Miri-interpreted runs for i686 / s390x (mips) as an out-of-bounds monitor",
          "Every enumerated input (all strings over class alphabets to a depth after resume contexts, all 256 byte values at every template position and lane phase, scanner grids, adversarial sizes to 64 KiB quick / 1 MiB thorough) is run through every entry point with the buffer flush against PROT_NONE pages, in a debug-assertion build and a release build, for every header-option set and capacities 0/1/2/16. A crash, hang, panic or out-of-range result is recovered from the journal and replayed.",
          "Trusted: the guard-page arena and journal of the harness; reads that stay inside the buffer are C12/C04's business; NEON only through emulation; sizes between the explored ones by the single-pass structure."),
- "C02": ("parent/child relation on every edge of the symbol trees and every split point of every template mutant; stateright graph of all delivery histories",
+ "C02": ("parent/child relation on every edge of the symbol trees and every split point of every template mutant; chains of cuts around the 128/256-byte marks of long fields; stateright graph of all delivery histories",
          "For every explored buffer B and every explored extension B·s (and every prefix of every single-byte mutant of the templates) the relation of the statement is checked on the real parser; all chunkings of 7 streams are paths of a stateright-explored snapshot graph replayed on one real value.",
          "Relational, model-free oracle. Bounded depth / template set; splits inside multi-byte symbols are covered by the template prefixes."),
- "C03": ("exhaustive symbol trees and template mutants; offset compared with the reference transducer and with an independent linear scan for the first empty line",
+ "C03": ("exhaustive symbol trees and template mutants; offset compared with the reference transducer and with an independent linear scan for the first empty line; long fields, page-boundary sweeps, size families with all four spellings of the final line ends, chunk-extension language; framing compared with the native run on interpreted i686 / s390x (mips)",
          "n is compared with two independent oracles on every explored Complete node, and every Partial node is scanned for an already-present empty line, under all header-option sets, capacities and entry kinds.",
          "The linear scan is weakened (blank-line + not-after-first-empty-line) only where folding and space-before-first are both enabled, see DESIGN.md 12."),
- "C04": ("pointer-range oracle on every node of the trees, sweeps and size families; exhaustive compile of a generated corpus of 150 client programs with rustc as the judge",
+ "C04": ("pointer-range oracle on every node of the trees, sweeps and size families; token dictionaries (fast paths returning literals); exhaustive compile of a generated corpus of 167 client programs (public and doc-hidden API) with rustc as the judge",
          "Every slice reachable from the value or the array after every explored call is checked against the buffer range, buf[..n], and the input order; the static half is decided on a finite corpus of escaping / legitimate programs compiled against the rlib built from /repo.",
          "The program corpus is finite: not a proof over all safe programs."),
- "C05": ("class predicates from the statement on every field of every explored result; all 256 byte values at every template position and every lane phase L<=70/100, per backend",
+ "C05": ("class predicates from the statement on every field of every explored result; all 256 byte values at every template position and every lane phase L<=70/100, per backend; long fields to 300 (520) with rotating page placements; token grids; hygiene evaluated on interpreted i686 / s390x (mips) results",
          "Model-free predicates (tchar, target, value, reason classes, from_utf8, OWS trimming, CR/LF/NUL in buf[..n], code digits) on every explored node under all header-option sets and the three runtime backends.",
          "Bounded exhaustive; fields longer than 100 bytes only in the size families."),
- "C06": ("product of the request-line symbol tree with the reference transducer; every trace replayed on the implementation; lane-phase and version-literal sweeps",
+ "C06": ("product of the request-line symbol tree with the reference transducer; every trace replayed on the implementation; lane-phase and version-literal sweeps; long targets/methods, page-boundary sweeps, method x target length grid, 30 methods x 10 targets x 12 protocol tokens with per-byte mutants; equality with the native run on interpreted i686 / s390x (mips)",
          "Status class, offset, method/path ranges and version compared with an independent byte-at-a-time transducer on every string over a 19-symbol alphabet to depth 5 (7 thorough) after 17 contexts, both multi-space settings, plus all 256 values at every position of target/method/version.",
          "The transducer is the trusted oracle (written from the statement; its abstract graph is checked for absorbing terminals and completions)."),
- "C07": ("product of the status-line symbol tree with the reference transducer; all 1000 codes; reason lane-phase sweep",
+ "C07": ("product of the status-line symbol tree with the reference transducer; all 1000 codes; reason lane-phase sweep; long reasons, space runs to 300, 44 registered status lines under 12 protocol tokens with per-byte mutants; equality with the native run on interpreted i686 / s390x (mips)",
          "As C06 for responses: 19-symbol alphabet, 15 contexts, both multi-space settings; all codes and 12^3 boundary strings in the code position; reason of every length 0..70/100 with every byte value at every position.",
          "The transducer is the trusted oracle."),
- "C08": ("product of the header-block symbol tree (default options, three entry kinds, resume contexts) with the reference transducer; name/value lane-phase sweeps; template mutants",
+ "C08": ("product of the header-block symbol tree (default options, three entry kinds, resume contexts) with the reference transducer; name/value lane-phase sweeps; template mutants; long names/values with distant byte pairs and page placements; name x value length grid; real header names and values in pairs and in 10 shapes; header-line strings; equality with the native run on interpreted i686 / s390x (mips)",
          "Exact lines in, exact (name, value) ranges out, on every string over an 11-symbol alphabet to depth 8 (10 thorough) with the run symbol stretched to 1/9/17/33 bytes, under three backends.",
          "The transducer is the trusted oracle; random grammar-derived blocks of the quantifier text are replaced by exhaustive trees and sweeps."),
- "C09": ("full enumeration of a 14-symbol alphabet to length 6 (7) after 0/14/15/16/17 digits against a u128 reference; digit-count and extension sweeps; digests across release and debug-assertion builds",
+ "C09": ("full enumeration of a 14-symbol alphabet to length 6 (7) after 0/14/15/16/17 digits against a u128 reference; digit-count and extension sweeps (hex digits and quoted strings inside extensions, lines followed by chunk data, extension language over 8 symbols to length 6); three profiles; digests across release and debug-assertion builds; equality with the native run on interpreted i686 (32-bit) / s390x",
          "Every string of the class alphabet is parsed and compared (status, offset, exact value) with the reference; the same corpus gives identical digests in release and dev profiles of every build variant.",
          "Repaired defect (zero-digit lines) recorded as fixed in known_findings.json."),
- "C10": ("error kind of every rejected node of the trees and template mutants compared with the reference transducer's classification of the first offending byte",
+ "C10": ("error kind of every rejected node of the trees and template mutants compared with the reference transducer's classification of the first offending byte; long fields in front of an invalid next line; header counts to 513; header-line strings under all 40 option sets",
          "All Err nodes under all header-option sets and capacities 0..2 (TooManyHeaders precedence).",
          "The transducer's classification is the reading of the statement."),
- "C11": ("EF Complete on the reference model's abstract graph; at every implementation-Partial node the model's completion suffix is executed on the implementation",
+ "C11": ("EF Complete on the reference model's abstract graph; at every implementation-Partial node the model's completion suffix is executed on the implementation; a Partial on bytes the reference grammar has already rejected is a violation outright; long fields along chains of cuts",
          "Existential quantifier discharged constructively: for every explored Partial node the suffix sigma(q) of its model state is appended and must give Complete; where the model is already terminal the whole finite completion set is tried.",
          "Exceptions exactly as stated (undecodable target, header capacity) are counted as exempt in the evidence."),
- "C12": ("scanner grids: 5 backends x 3 classes x length 0..100 x position x 256 values x fillers x placements, pairs of offending positions, boundary alphabet ^8; NEON source compiled against an intrinsic emulation",
+ "C12": ("scanner grids: 5 backends x 3 classes x length 0..100 x position x 256 values x fillers x placements (guard-flush, 32 alignments, in-class surroundings, page-straddling), long grid to 300 (520), pairs of offending positions, non-fresh cursors, boundary alphabet ^8; NEON source compiled against an intrinsic emulation; the word-at-a-time scanners interpreted by Miri for i686 / s390x (mips) against a class oracle",
          "Stop position of every scanner equals the first out-of-class byte per the classes written in the statement, buffers flush against guard pages and at every start alignment.",
          "NEON runs through a 13-intrinsic emulation (trusted); hardware behaviour of real NEON is out of reach on this host."),
- "C13": ("38-point build lattice (feature switches and whole target CPUs); per-partition digests of one enumerated corpus across 8 (15) build variants / forced backends / profiles, each variant checked to have selected its documented backend; in-process forced-backend agreement and alignment agreement under each backend; loom over the real runtime.rs on four simulated CPUs",
+ "C13": ("38-point build lattice in two profiles (feature switches and whole target CPUs), i686 x target-feature sets and aarch64 type-checked; per-partition digests of one enumerated corpus across 8 (15) build variants / forced backends / profiles, each variant checked to have selected its documented backend; in-process forced-backend agreement and alignment agreement under each backend; loom over the real runtime.rs on four simulated CPUs; full-result equality with the native run on interpreted i686 / s390x (mips)",
          "Configurations enumerated completely; results compared on an enumerated corpus; every interleaving (unbounded preemptions) of 2-4 threads' first calls through the backend cache explored on CPUs with avx2, sse4.2 only, neither.",
          "loom's C11 model; scanner stubs under loom; cold-start races of free-running processes are not used (sampling)."),
- "C14": ("product of the header-block symbol tree under all 16 response and 4 request option sets with the parameterised reference transducer; option templates under every option subset",
+ "C14": ("product of the header-block symbol tree under all 16 response and 4 request option sets with the parameterised reference transducer; all 128 configurations on both message kinds at depth 4 (5); dropped-line fields; header-line strings under all 40 option sets; real header names in 10 shapes; option templates under every option subset",
          "Exact widening per option and their interactions on every string to depth 6 (8), with stretched runs under three backends.",
          "The transducer is the trusted oracle for what 'exactly as documented' means."),
- "C15": ("metamorphic relation on every default-Complete node x 128 configs, and on every node x own-kind config x every other-kind option subset",
+ "C15": ("metamorphic relation on every default-Complete node x 128 configs, and on every node x own-kind config x every other-kind option subset, at capacities 0, 1, 2 (4); default-accepted whitespace runs to 300, SP^n before every first reason byte, long fields — under all 128 configs",
          "Model-free equality of full results (sole exception: reason with leading spaces stripped under the response multi-space option).",
          "Bounded depth; template mutants add real-looking messages."),
- "C16": ("pairwise equality of all entry points of a kind on every node of the trees and template mutants; parse_headers in lock-step with request and response heads (CRLF and LF start lines); stateright histories: initialised-array and uninit entry points agree on re-used values",
+ "C16": ("pairwise equality of all entry points of a kind on every node of the trees and template mutants; parse_headers in lock-step with request and response heads (CRLF and LF start lines); header counts to 513 and size families to 70 KB on every entry point; stateright histories: initialised-array and uninit entry points agree on re-used values (every error kind occurs in the histories)",
          "4 request and 4 response entry points x configs x capacities 0/1/3; parse_headers(w) against heads ending in w with shifted offsets.",
          "Model-free."),
- "C17": ("sentinel/poison prefilled arrays inspected as raw words after every call; capacities 0..4(7) against capacity 16 on every node; header-count sweep 0..24 (72) lines against capacities around the count; size families; stateright histories for the restore invariant",
+ "C17": ("sentinel/poison prefilled arrays inspected as raw words after every call; capacities 0..4(7) against capacity 16 on every node; header-count sweep 0..24 (72) and 99..513 lines against capacities around the count; size families to 256 KiB (87 k headers) incl. unterminated ones; stateright histories for the restore invariant",
          "Count, ranges, untouched slots, restore after Partial/Err, no exposed uninitialised slot, TooManyHeaders exactly when the model completes header N+1.",
          "Header layout assumed to be 4 words (checked at compile time)."),
  "C18": ("stateright exploration of all histories of <=3 (4) earlier calls from 60 (80) operations per message kind (and 13 parse_headers operations on one re-used array), capacities 0..3, on the real parser; canonicalised by snapshot and cross-checked un-canonicalised",
          "Every reachable snapshot x every probe: probe on the reused value equals the probe on a fresh value of the current headers length, and of the original array while no call has returned Complete.",
          "Snapshot = everything a later call can read (argued in DESIGN.md S4)."),
- "C19": ("allocator-call delta around every call on every explored node, repeated with every environment variable the sources read set; no_std lattice points incl. whole target CPUs; -Zbuild-std=core build for a target without std/alloc",
+ "C19": ("allocator-call delta around every call on every explored node, repeated with every environment variable the sources read set; no_std lattice points incl. whole target CPUs; release-profile lattice points; -Zbuild-std=core builds for x86_64-none, i686, aarch64-none, riscv32",
          "Counting global allocator, per-thread counter; all outcomes and entry points; build legs enumerate the feature sets.",
          "Allocation inside the kernel/libc is invisible; none is expected."),
- "C20": ("cursor-operation counters on every explored node and on 42 size families to 64 KiB (1 MiB); doubling test; instructions inside the parse call (callgrind toggle-collect) at three sizes for complete, unterminated and erroneous inputs",
+ "C20": ("cursor-operation counters on every explored node and on 89 size families (incl. all-option twins, colon-less, mixed line ends, unterminated) to 256 KiB (1 MiB); doubling test; instructions inside the parse call (callgrind toggle-collect) at three sizes for complete, unterminated and erroneous inputs",
          "One cursor per call, forward only, travel <= len, operations <= 16 len + 128; increments between N/2N/4N at most 2.2x (cursor ops) and 2.5x (instructions inside the parse call).",
          "Thresholds separate linear from quadratic growth; they are not tight constants."),
 }
